@@ -8,12 +8,32 @@ func VH_C16_CutGen() {
 	nb := vInt("nblocks")
 	vAssume(vAnd(nb >= 1, nb <= vParam("BLOCKS")))
 	nb = vConc(nb)
+	tail := vParam("TAIL")
 	for b := 0; b < nb; b++ {
 		final := 0
-		if b == nb-1 {
+		if b == nb-1 && tail == 0 {
 			final = 1
 		}
-		g.genBlock(final, vParam("TOKENS"), vParam("DYN") == 1)
+		fill, toks := 0, vParam("TOKENS")
+		if b == 0 && vParam("FILL9") > 0 {
+			fill, toks = vParam("FILL9"), 0
+		}
+		g.genBlock(final, toks, vParam("DYN") == 1, fill)
+	}
+	if tail > 0 {
+		// a final stored block of TAIL bytes makes the stream long enough for the 8-byte fast path
+		// of huffman.decode to run on the blocks before it
+		g.putBit(1)
+		g.put(0, 2)
+		g.align()
+		g.put(tail, 16)
+		g.put(tail^0xFFFF, 16)
+		for i := 0; i < tail; i++ {
+			b := byte(0xD0 + i) // concrete: the tail only lengthens the stream
+			g.bytes = append(g.bytes, b)
+			g.nbits += 8
+			g.out = append(g.out, b)
+		}
 	}
 	g.align()
 	if len(g.out) > 600 {
